@@ -223,7 +223,9 @@ func tokenizeRule(str string) []string {
 				currentToken.Reset()
 			}
 
-		case (r == '+' || r == '=') && len(blockStack) == 0 && !quoted && isVariable:
+		case (r == '+' || r == '=') && len(blockStack) == 0 && !quoted && isVariable &&
+			(len(tokens)+min(currentToken.Len(), 1) == 1 || len(tokens) == 2 && wasTokPLUS && r == '=' && currentToken.Len() == 0):
+			// (only the operator that follows the variable name: a value may contain + and = too)
 			// Handle variable assignment
 			if currentToken.Len() != 0 {
 				tokens = append(tokens, currentToken.String())
@@ -286,7 +288,15 @@ func parseRule(str string) rule {
 	res := make(rule, 0, len(str)/2)
 	tokens := tokenizeRule(str)
 
-	inAare := len(tokens) > 0 && (isAARE(tokens[0]) || tokens[0] == tokOWNER)
+	// The first token that is not a qualifier decides: a path may follow audit, deny, allow or owner
+	inAare := false
+	for _, token := range tokens {
+		if token == tokAUDIT || token == tokDENY || token == tokALLOW {
+			continue
+		}
+		inAare = isAARE(token) || token == tokOWNER
+		break
+	}
 	for idx, token := range tokens {
 		switch {
 		case token == tokEQUAL, token == tokPLUS+tokEQUAL, token == tokLESS+tokEQUAL: // Variable & Rlimit
